@@ -104,8 +104,10 @@ def gather(ctx):
     pops += list(popgen.shape(rng, 120 if q else 1000))
     pops += list(popgen.occupancy(rng, 150 if q else 1200))
     pops += list(popgen.affine(rng, 120 if q else 1000))
+    pops += list(popgen.affine_occ(rng, 50 if q else 400))
     pops += list(popgen.cascade(rng, 60 if q else 500))
     base = list(popgen.plain(rng, 80 if q else 600)) + list(popgen.shape(rng, 80 if q else 600)) + list(popgen.occupancy(rng, 120 if q else 900))
+    base += list(popgen.affine(rng, 60 if q else 500)) + list(popgen.affine_occ(rng, 20 if q else 150))
     pops += list(popgen.with_spacetime(rng, base))
     pops += popgen.accelerators()
     pops += list(popgen.compute_only(rng, 25 if q else 200))
